@@ -107,8 +107,12 @@ class Abstraction:
 
     def sstate(self, st):
         lb = _lb()
+        body = lb.state_body(st)
+        if st.NODETYPE.localname == 'ClockState':
+            # the self-updating clock time is not part of the content (as in loopback.diff_snapshots)
+            body = {k: v for k, v in body.items() if k not in ('DateAndTime', 'LastSet')}
         return (self.h(st.DescriptorHandle), st.DescriptorVersion, st.StateVersion, kind_code(st),
-                self.b([st.NODETYPE.localname, lb.state_body(st)]))
+                self.b([st.NODETYPE.localname, body]))
 
     def cstate(self, st):
         lb = _lb()
@@ -213,7 +217,12 @@ class History:
     psnaps: dict             # tx index -> canonical provider snapshot (loopback.snapshot) after that transaction
     txs: list                # descriptions of the transactions
     epoch_of_tx: list        # epoch number (changes with SequenceId / InstanceId)
-    excluded_tx: set = dataclasses.field(default_factory=set)   # transactions the protocol cannot mirror (C01)
+    excluded_tx: dict = dataclasses.field(default_factory=dict)  # tx -> context descriptor (abstract handle) one of whose
+    #                                                              states was deleted without a report (not mirrorable)
+    heals: dict = dataclasses.field(default_factory=dict)        # tx -> context descriptors with an UPDATE part
+    pcores: dict = dataclasses.field(default_factory=dict)       # tx -> (vg, abstract tables) of the provider (C01)
+    epoch_start: dict = dataclasses.field(default_factory=dict)  # tx index -> kind of id change right before it
+    pcore_before: dict = dataclasses.field(default_factory=dict)  # tx index -> provider content right before it (after an id change)
 
 
 # ----------------------------------------------------------------------------------------------------------------
@@ -458,6 +467,18 @@ class TxGen:
                     st.ContextAssociation = self.rng.choice(list(self.pm_types.ContextAssociation))
         return f'context update {len(sel)}'
 
+    def tx_context_delete(self):
+        """a context state deleted through the entity interface: the provider sends no report (cannot be mirrored)"""
+        sts = sorted((s.Handle, s.DescriptorHandle) for s in self.mdib.context_states.objects)
+        if len(sts) < 2:
+            return self.tx_context_new()
+        handle, dh = self.rng.choice(sts)
+        ent = self.mdib.entities.by_handle(dh)
+        ent.states.pop(handle)
+        with self.mdib.context_state_transaction() as tr:
+            tr.write_entity(ent, [handle])
+        return f'context delete {dh}'
+
     def tx_set_location(self):
         from sdc11073.location import SdcLocation
         loc = SdcLocation(fac=self.rng.choice(['fac1', 'fac2']), poc=self.rng.choice(['CU1', 'CU2']),
@@ -577,7 +598,7 @@ class TxGen:
         return f'descr delete {kind} ({len(sub)})'
 
     KINDS = (('tx_metric', 5), ('tx_string_metric', 1), ('tx_alert', 3), ('tx_component', 2), ('tx_operational', 2),
-             ('tx_rt', 2), ('tx_context_new', 3), ('tx_context_update', 3), ('tx_set_location', 2),
+             ('tx_rt', 2), ('tx_context_new', 3), ('tx_context_update', 3), ('tx_context_delete', 1), ('tx_set_location', 2),
              ('tx_descr_update', 5), ('tx_descr_create', 4), ('tx_descr_delete', 3))
 
     def any(self):
@@ -588,19 +609,27 @@ class TxGen:
 class HistoryRecorder:
     """Runs transactions on the real provider and records wire messages, Get answers and provider snapshots."""
 
-    def __init__(self, world: World, count=None, ctx_in_getmdib=True):
+    def __init__(self, world: World, count=None, ctx_in_getmdib=True, record_cores=False):
         self.w = world
         self.count = count
         world.provider.take_wire()
         world.provider.device.contextstates_in_getmdib = ctx_in_getmdib
         self.hist = History(Abstraction(), [], [], [], [], {}, [], [])
         self.epoch = 0
+        self.record_cores = record_cores
         self.capture()
         self.hist.psnaps[-1] = world.lb.snapshot(world.provider.mdib)
+        self._core(-1)
 
     @property
     def n_tx(self):
         return len(self.hist.txs)
+
+    def _core(self, i):
+        """abstract provider content (model vocabulary) after transaction i"""
+        if self.record_cores:
+            mdib = self.w.provider.mdib
+            self.hist.pcores[i] = (self.hist.abs.vg(mdib.mdib_version_group), abstract_tables(mdib, self.hist.abs))
 
     def capture(self):
         h = self.hist
@@ -621,6 +650,10 @@ class HistoryRecorder:
             mdib.mdib_version = rng.randint(0, max(0, mdib.mdib_version - 1))
         if self.count:
             self.count('epoch-change:' + what)
+        h = self.hist
+        h.epoch_start[self.n_tx] = what
+        if self.record_cores:        # the version group of the content before the next transaction changed
+            h.pcore_before[self.n_tx] = (h.abs.vg(mdib.mdib_version_group), abstract_tables(mdib, h.abs))
         # a consumer can only get in sync again through a reload: always offer a capture at the epoch start
         return self.capture()
 
@@ -641,19 +674,26 @@ class HistoryRecorder:
             h.wire.append(w)
             h.reports.append(self.w.abstract_report(h.abs, w))
             h.tx_of_wire.append(i)
+            for m, d, _, _ in h.reports[-1].parts:
+                if m == 1 and d[2] == 5:
+                    h.heals.setdefault(i, set()).add(d[0])
+        if desc.startswith('context delete'):
+            h.excluded_tx[i] = h.abs.h(desc.split(' ')[-1])
         h.txs.append(desc)
         h.epoch_of_tx.append(self.epoch)
         h.psnaps[i] = self.w.lb.snapshot(p.mdib)
+        self._core(i)
         if self.count:
             ws = desc.split(' ')
             self.count('tx:' + ws[0] + (' ' + ws[1] if ws[0] in ('descr', 'context') and len(ws) > 1 else ''))
         return list(range(first, len(h.wire)))
 
 
-def gen_history(world: World, rng, n_tx: int, n_captures: int = 3, epochs: bool = True, count=None) -> History:
+def gen_history(world: World, rng, n_tx: int, n_captures: int = 3, epochs: bool = True, count=None,
+                record_cores=False) -> History:
     """Run `n_tx` random transactions on the real provider; capture wire messages, Get answers, provider snapshots."""
     gen = TxGen(world, rng)
-    rec = HistoryRecorder(world, count, ctx_in_getmdib=rng.random() < 0.6)
+    rec = HistoryRecorder(world, count, ctx_in_getmdib=rng.random() < 0.6, record_cores=record_cores)
     capture_at = set(rng.sample(range(n_tx), min(n_tx, n_captures)))
     # epoch changes (new SequenceId / InstanceId as after a provider restart) in some histories
     epoch_at = {}
@@ -839,7 +879,8 @@ def fmt_notif(rk, h=(), c=(), u=(), d=(), x=0, e=0):
 class Runner:
     """Executes one schedule on a fresh real ConsumerMdib; produces the canonical lines + oracle verdicts."""
 
-    def __init__(self, world: World, hist: History, fail, count=lambda *_: None, mirror_oracle=True):
+    def __init__(self, world: World, hist: History, fail, count=lambda *_: None, mirror_oracle=True, notif_oracle=False):
+        self.notif_oracle = notif_oracle
         self.w = world
         self.hist = hist
         self.ab = hist.abs
@@ -864,7 +905,7 @@ class Runner:
         self.max_delivered = -1
         self.epoch_ids = None         # (seq, inst) of the last load
         self.in_sync_tx = None        # consumer has seen exactly every report up to this transaction (else None)
-        self.sync_pending = []        # wire indices of the transaction being received in order
+        self.unmirrored = set()       # context descriptors with a state deleted by the provider without any report
         self.published = self._published()
         self.stopped = False
 
@@ -908,9 +949,12 @@ class Runner:
         rk_of_handler = {HANDLERS[0]: 0, HANDLERS[1]: 1, HANDLERS[2]: 4, HANDLERS[3]: 3, HANDLERS[4]: 2, HANDLERS[5]: 5,
                          HANDLERS[6]: 6}
 
+        self.last_struct = []
+
         def flush():
             if cur is not None:
                 res.append(fmt_notif(cur['rk'], cur['h'], cur['c'], cur['u'], cur['d']))
+                self.last_struct.append(cur)
         for name, keys in log:
             if name == '<handler>':
                 flush()
@@ -1068,7 +1112,38 @@ class Runner:
         if i < self.max_delivered:
             self.stats['reordered'] += 1
         self.max_delivered = max(self.max_delivered, i)
+        if self.notif_oracle and self.in_sync_tx is not None and i == self.in_sync_wire:
+            self._oracle_notifications(rep, old, new, where)
         self._track_sync(i, new, where)
+
+    def _oracle_notifications(self, rep, old, new, where):
+        """C01: the notifications raised while the report was processed name exactly the entities it changed"""
+        if len(self.last_struct) != 1:
+            self.fail('notification-count', f'{where}: {len(self.last_struct)} handler notifications for one report')
+            return
+        n = self.last_struct[0]
+
+        def changed(tab):
+            return {k for k in set(old[tab]) | set(new[tab]) if old[tab].get(k) != new[tab].get(k)}
+        if rep.rk == 6:
+            named = set(n['c']) | set(n['u']) | set(n['d'])
+            ent = changed(0) | {(old[1].get(k) or new[1].get(k))[0] for k in changed(1)} | \
+                {(old[2].get(k) or new[2].get(k))[1] for k in changed(2)}
+            parts = {'c': {d[0] for m, d, _, _ in rep.parts if m == 0}, 'u': {d[0] for m, d, _, _ in rep.parts if m == 1},
+                     'd': {d[0] for m, d, _, _ in rep.parts if m == 2}}
+            for key, label in (('c', 'new'), ('u', 'updated'), ('d', 'deleted')):
+                if set(n[key]) != parts[key]:
+                    self.fail('notification-keys:' + label, f'{where}: {label}_descriptors_by_handle names #{sorted(set(n[key]))}, the report '
+                                                            f'has {label} parts for #{sorted(parts[key])}')
+            if ent != named:
+                self.fail('notification-keys:description', f'{where}: description modification notifications name #{sorted(named)}, '
+                                                           f'changed entities are #{sorted(ent)}')
+        else:
+            named = set(n['h'])
+            ch = changed(2 if rep.rk == 3 else 1)
+            if named != ch:
+                self.fail('notification-keys:' + ('context' if rep.rk == 3 else 'state'),
+                          f'{where}: {OBS_OF_RK[rep.rk]} names #{sorted(named)}, the report changed #{sorted(ch)}')
 
     def _track_sync(self, i, new, where):
         """mirror oracle: while every report since the load arrived exactly once and in order, the consumer must equal
@@ -1084,12 +1159,19 @@ class Runner:
         tx = hist.tx_of_wire[i]
         last_of_tx = i + 1 >= len(hist.wire) or hist.tx_of_wire[i + 1] != tx
         if last_of_tx:
+            self._advance_sync(self.in_sync_tx, tx)
             self.in_sync_tx = tx
-            if tx in hist.excluded_tx:
-                self.in_sync_tx = None
-                return
-            if self.mirror_oracle:
+            if self.mirror_oracle and not self.unmirrored:
                 self.check_mirror(tx, where)
+
+    def _advance_sync(self, from_tx, to_tx):
+        """transactions (from_tx, to_tx] are now reflected: book-keeping of the context states that were deleted without
+        a report (the protocol has no message for it; an UPDATE of their descriptor removes them at the consumer)"""
+        hist = self.hist
+        for t in range(from_tx + 1, to_tx + 1):
+            self.unmirrored -= hist.heals.get(t, set())
+            if t in hist.excluded_tx:
+                self.unmirrored.add(hist.excluded_tx[t])
 
     def check_mirror(self, tx, where, psnap=None):
         lb = self.w.lb
@@ -1142,10 +1224,9 @@ class Runner:
             complete = nxt >= len(hist.wire) or not applicable or hist.tx_of_wire[nxt] != hist.tx_of_wire[nxt - 1]
             tx = hist.tx_of_wire[nxt - 1] if applicable else cap.tx
             self.in_sync_tx = tx if complete else cap.tx
-            bad_tx = any(t in hist.excluded_tx for t in range(cap.tx + 1, tx + 1))
-            if bad_tx:
-                self.in_sync_tx = None
-            elif complete and self.mirror_oracle:
+            self.unmirrored = set()
+            self._advance_sync(cap.tx, self.in_sync_tx)
+            if complete and self.mirror_oracle and not self.unmirrored:
                 self.check_mirror(tx, where, psnap=None if applicable else cap.psnap)
 
     def run(self, schedule):
@@ -1155,6 +1236,8 @@ class Runner:
             else:
                 self.reload(e[1], e[2], e[3])
         self.full_dump()
+        seen = {e[1] for e in schedule if e[0] == 'deliver'} | {i for e in schedule if e[0] == 'reload' for i in e[3]}
+        self.stats['dropped'] = len(self.hist.wire) - len(seen)
         return self
 
     def full_dump(self):
@@ -1184,46 +1267,145 @@ def canon_case(hist: History, schedule):
             ('reload', e[1], e[2], [hist.reports[i].line() for i in e[3]]) for e in schedule]
 
 
-def run_cases(ctx, world, n_hist, n_sched, key, n_tx=(4, 12), mirror_oracle=True, sched_gen=gen_schedule):
-    """generate histories / schedules, run them on the implementation, return list of (case, runner)"""
-    cases = []
-    for hi in range(n_hist):
+CHUNK = 5   # histories per fresh provider (a history depends on the provider state left by the earlier ones of its chunk)
+
+
+@dataclasses.dataclass
+class CaseResult:
+    """picklable result of one (history, schedule) run on the implementation"""
+    case: dict
+    txs: list
+    canon: list
+    lines: list
+    outs: list
+    stats: dict
+    n_wire: int
+    n_events: int
+
+
+def _result(case, hist, sched, runner):
+    return CaseResult(case, hist.txs, canon_case(hist, sched), runner.lines, runner.outs, runner.stats, len(hist.wire), len(sched))
+
+
+def _resolve(name):
+    import importlib
+    mod, fn = name.split(':')
+    return getattr(importlib.import_module(mod), fn)
+
+
+def run_chunk(ctx, world, key, chunk, n_hist, n_sched, n_tx=(4, 12), mirror_oracle=True, sched_gen='props.c06:gen_schedule',
+              only=None, describe=False, notif_oracle=False):
+    """histories chunk*CHUNK .. on `world` (which must be fresh); `only=(hi, schedule)` = replay of one recorded case"""
+    gen = _resolve(sched_gen)
+    res = []
+    for hi in range(chunk * CHUNK, min(n_hist, (chunk + 1) * CHUNK)):
         rng = ctx.subrng(key, 'history', hi)
-        hist = gen_history(world, rng, rng.randint(*n_tx), count=ctx.count)
+        hist = gen_history(world, rng, rng.randint(*n_tx), count=ctx.count, record_cores=describe)
         ctx.count('histories')
         ctx.count('wire-messages', len(hist.wire))
-        for si in range(n_sched):
-            srng = ctx.subrng(key, 'history', hi, 'schedule', si)
-            sched = sched_gen(hist, srng, ctx.count)
-            case = {'history_key': [key, hi], 'schedule_key': si, 'schedule': [list(e) for e in sched]}
+        if describe and only is None:
+            res.append(describe_result(hist, {'key': key, 'history': hi, 'seed': ctx.seed, 'tier': ctx.tier, 'n_hist': n_hist,
+                                              'n_tx': list(n_tx), 'sched_gen': sched_gen, 'schedule': [], 'describe': True}))
+        if only is not None:
+            if hi != only[0]:
+                continue
+            scheds = [(None, [tuple(e) for e in only[1]])]
+        else:
+            scheds = [(si, gen(hist, ctx.subrng(key, 'history', hi, 'schedule', si), ctx.count)) for si in range(n_sched)]
+        for si, sched in scheds:
+            case = {'key': key, 'history': hi, 'schedule_index': si, 'schedule': [list(e) for e in sched], 'seed': ctx.seed,
+                    'tier': ctx.tier, 'n_hist': n_hist, 'n_tx': list(n_tx), 'sched_gen': sched_gen}
 
             def fail(sig, detail, _case=case, _hist=hist):
                 ctx.fail(sig, detail, {**_case, 'txs': _hist.txs})
-            runner = Runner(world, hist, fail, ctx.count, mirror_oracle=mirror_oracle).run(sched)
-            cases.append((case, hist, sched, runner))
-    return cases
+            runner = Runner(world, hist, fail, ctx.count, mirror_oracle=mirror_oracle, notif_oracle=notif_oracle).run(sched)
+            res.append(_result(case, hist, sched, runner))
+    return res
 
 
-def compare_with_model(ctx, cases, driver='drv_c06'):
+def enc_core(vg, tabs):
+    d, s, c = tabs
+    return [vg[0], vg[1], opt(vg[2])] + enc_list([d[k] for k in sorted(d)], enc_d) + enc_list([s[k] for k in sorted(s)], enc_s) + \
+        enc_list([c[k] for k in sorted(c)], enc_s)
+
+
+def describe_result(hist: History, case):
+    """one `desc` line per transaction: do its reports describe the change of the provider content? (C01 hypothesis)"""
+    lines, outs = [], []
+    for i, desc in enumerate(hist.txs):
+        if i in hist.excluded_tx or i - 1 not in hist.pcores or i not in hist.pcores:
+            continue
+        reps = [r for r, t in zip(hist.reports, hist.tx_of_wire) if t == i]
+        toks = enc_core(*hist.pcore_before.get(i, hist.pcores[i - 1])) + enc_core(*hist.pcores[i]) + [len(reps)]
+        for r in reps:
+            toks += [int(x) for x in r.line().split(' ')[1:]]
+        lines.append('desc ' + ' '.join(map(str, toks)))
+        outs.append('describes')
+    return CaseResult(case, hist.txs, ['describe', hist.txs, [r.line() for r in hist.reports]], lines, outs,
+                      dict(accepted=0, dropped=0, dup=0, reordered=0, buffered=0, stale=0, invalid=0, reloads=0), len(hist.wire), 0)
+
+
+def _chunk_worker(args):
+    prop, tier, seed, kw = args
+    import logging
+    logging.disable(logging.CRITICAL)
+    ctx = core.Ctx(prop, tier, seed)
+    try:
+        world = World()
+        try:
+            res = run_chunk(ctx, world, **kw)
+        finally:
+            world.stop()
+        err = None
+    except Exception:  # noqa: BLE001
+        res, err = [], traceback.format_exc()[-3000:]
+    return res, ctx.failures, ctx.hist, err
+
+
+def run_cases(ctx, key, n_hist, n_sched, processes=None, **kw):
+    """all chunks, each on a fresh provider in a worker process; merges counts / failures into ctx"""
+    import multiprocessing as mp
+    chunks = list(range((n_hist + CHUNK - 1) // CHUNK))
+    tasks = [(ctx.prop, ctx.tier, ctx.seed, dict(key=key, chunk=c, n_hist=n_hist, n_sched=n_sched, **kw)) for c in chunks]
+    procs = processes or min(8, len(tasks))
+    if procs <= 1:
+        outs = [_chunk_worker(t) for t in tasks]
+    else:
+        with mp.get_context('spawn').Pool(procs) as pool:
+            outs = pool.map(_chunk_worker, tasks, chunksize=1)
+    results = []
+    for res, failures, hist, err in outs:
+        if err:
+            raise RuntimeError('worker failed: ' + err)
+        results.extend(res)
+        for f in failures:
+            ctx.fail(f['signature'], f['detail'], f['case'])
+            ctx.hist['oracle-failure:' + f['signature']] -= 1   # counted below with the worker's histogram
+        for k, v in hist.items():
+            ctx.count(k, v)
+    return results
+
+
+def compare_with_model(ctx, results, driver='drv_c06'):
     if not ctx.driver_ok:
         return
     lines = []
-    for _, _, _, runner in cases:
+    for r in results:
         lines.append('reset')
-        lines.extend(runner.lines)
+        lines.extend(r.lines)
     out = ctx.driver(driver, lines)
     k = 0
-    for case, hist, sched, runner in cases:
+    for r in results:
         k += 1  # reset
-        for j, (line, impl) in enumerate(zip(runner.lines, runner.outs)):
+        for j, (line, impl) in enumerate(zip(r.lines, r.outs)):
             model = out[k]
             k += 1
             if model != impl:
-                ctx.disagree('Consumer.step == ConsumerMdib after the event', {**case, 'event_index': j, 'event': line[:300],
-                                                                            'txs': hist.txs},
+                ctx.disagree('Consumer.step == ConsumerMdib after the event', {**r.case, 'event_index': j, 'event': line[:300],
+                                                                            'txs': r.txs},
                              model[:1500], impl[:1500])
                 # the later lines of this case only repeat the difference
-                k += len(runner.lines) - j - 1
+                k += len(r.lines) - j - 1
                 break
 
 
@@ -1351,7 +1533,40 @@ def scenario_orphan_state(world, rng):
     return rec.hist, [('reload', 0, 0, [])] + [('deliver', i) for i in w1[1:]] + [('deliver', i) for i in w2]
 
 
-SCENARIOS = (scenario_ctx_answer_newer, scenario_dup_create, scenario_alert_source, scenario_inflight_same_version,
+def scenario_context_delete_heals(world, rng):
+    """a context state is deleted through the entity interface (no report exists for that); the next UPDATE of its
+    descriptor lists the remaining states: the consumer has to drop the deleted one and is a mirror again"""
+    gen = TxGen(world, rng)
+    rec = HistoryRecorder(world)
+    pat = _first(world.mdib, 'PatientContextDescriptor')
+    handles = [gen._new_handle('scn_del'), gen._new_handle('scn_del')]  # noqa: SLF001
+
+    def new_state(h):
+        def fn():
+            with world.mdib.context_state_transaction() as tr:
+                st = tr.mk_context_state(pat, h, set_associated=False)
+                st.CoreData.Givenname = h
+            return 'context new pat'
+        return fn
+
+    def delete():
+        ent = world.mdib.entities.by_handle(pat)
+        ent.states.pop(handles[0])
+        with world.mdib.context_state_transaction() as tr:
+            tr.write_entity(ent, [handles[0]])
+        return f'context delete {pat}'
+
+    def upd_descr():
+        with world.mdib.descriptor_transaction() as tr:
+            d = tr.get_descriptor(pat)
+            d.SafetyClassification = gen.pm_types.SafetyClassification.MED_C
+        return 'descr update context pat'
+    w = rec.tx(new_state(handles[0])) + rec.tx(new_state(handles[1])) + rec.tx(delete) + rec.tx(gen.tx_metric) + \
+        rec.tx(upd_descr) + rec.tx(gen.tx_metric)
+    return rec.hist, [('reload', 0, 0, [])] + [('deliver', i) for i in w]
+
+
+SCENARIOS = (scenario_ctx_answer_newer, scenario_context_delete_heals, scenario_dup_create, scenario_alert_source, scenario_inflight_same_version,
              scenario_context_keys, scenario_orphan_state)
 
 
@@ -1364,64 +1579,71 @@ def run_scenarios(ctx, world, mirror_oracle=True):
         def fail(sig, detail, _case=case, _hist=hist):
             ctx.fail(sig, detail, {**_case, 'txs': _hist.txs})
         runner = Runner(world, hist, fail, ctx.count, mirror_oracle=mirror_oracle).run(sched)
-        cases.append((case, hist, sched, runner))
+        cases.append(_result(case, hist, sched, runner))
         ctx.count('scenarios')
     return cases
 
 
-def run(ctx):
-    world = World()
+def _scenario_worker(args):
+    prop, tier, seed, mirror = args
+    import logging
+    logging.disable(logging.CRITICAL)
+    ctx = core.Ctx(prop, tier, seed)
     try:
-        _run(ctx, world)
-    finally:
-        world.stop()
+        world = World()
+        try:
+            res = run_scenarios(ctx, world, mirror)
+        finally:
+            world.stop()
+        err = None
+    except Exception:  # noqa: BLE001
+        res, err = [], traceback.format_exc()[-3000:]
+    return res, ctx.failures, ctx.hist, err
 
 
-def _run(ctx, world):
-    cases = run_scenarios(ctx, world)
-    cases += run_cases(ctx, world, ctx.n(10, 120), ctx.n(8, 12), 'c06')
-    for case, hist, sched, runner in cases:
-        st = runner.stats
-        nontrivial = st['accepted'] > 0 and (st['dup'] + st['stale'] + st['reordered'] + st['buffered'] > 0 or
-                                             len(sched) < len(hist.wire))
-        ctx.case(canon_case(hist, sched), nontrivial=nontrivial,
-                 sample={'txs': hist.txs, 'schedule': [list(e) for e in sched][:12], 'stats': st})
-        for k, v in st.items():
+def nontrivial(st, n_wire, n_events):
+    return st['accepted'] > 0 and (st['dup'] + st['stale'] + st['reordered'] + st['buffered'] > 0 or n_events < n_wire)
+
+
+def run(ctx):
+    results = []
+    # scenarios in this process (fresh provider), generated cases in worker processes
+    res, failures, hist, err = _scenario_worker((ctx.prop, ctx.tier, ctx.seed, True))
+    if err:
+        raise RuntimeError('scenarios failed: ' + err)
+    results += res
+    for f in failures:
+        ctx.fail(f['signature'], f['detail'], f['case'])
+        ctx.hist['oracle-failure:' + f['signature']] -= 1
+    for k, v in hist.items():
+        ctx.count(k, v)
+    results += run_cases(ctx, 'c06', ctx.n(10, 120), ctx.n(8, 12))
+    for r in results:
+        ctx.case(r.canon, nontrivial=nontrivial(r.stats, r.n_wire, r.n_events),
+                 sample={'txs': r.txs, 'schedule': r.case['schedule'][:12], 'stats': r.stats})
+        for k, v in r.stats.items():
             ctx.count('events:' + k, v)
-    ctx.traces = sum(len(r.lines) for _, _, _, r in cases)
-    compare_with_model(ctx, cases)
-
-
-def _replay_case(ctx, world, case, _unused=None):
-    """regenerate the history of a recorded case (same sub-seed) and run its schedule; returns the failure signatures"""
-    key, hi = case['history_key']
-    seed = case.get('seed', ctx.seed)
-    sub = core.Ctx(ctx.prop, ctx.tier, seed)
-    rng = sub.subrng(key, 'history', hi)
-    hist = gen_history(world, rng, rng.randint(*case.get('n_tx', (4, 12))))
-    sched = [tuple(e) for e in case['schedule']]
-    sigs = []
-    runner = Runner(world, hist, lambda sig, detail: sigs.append((sig, detail))).run(sched)
-    return sigs, runner, hist, sched
+    ctx.traces = sum(len(r.lines) for r in results)
+    compare_with_model(ctx, results)
 
 
 def search(ctx):
-    """deeper failing-input search: more schedules per history, oracle only"""
-    world = World()
-    try:
-        run_cases(ctx, world, ctx.n(20, 60), 10, 'c06-search')
-    finally:
-        world.stop()
+    """deeper failing-input search: other histories and schedules, oracle only"""
+    run_cases(ctx, 'c06-search', ctx.n(20, 80), 10)
 
 
 def replay(ctx, obj):
+    case = obj['case']
+    sub = core.Ctx(ctx.prop, case.get('tier', ctx.tier), case.get('seed', ctx.seed))
     world = World()
     try:
-        case = dict(obj['case'])
-        case.setdefault('seed', obj.get('seed', ctx.seed))
-        sigs, *_ = _replay_case(ctx, world, case)
-        for s, d in sigs:
-            print(s, '::', d[:300])
-        return any(s == obj['signature'] for s, _ in sigs)
+        if 'scenario' in case:
+            run_scenarios(sub, world)
+        else:
+            run_chunk(sub, world, case['key'], case['history'] // CHUNK, case['n_hist'], 0, tuple(case['n_tx']),
+                      sched_gen=case['sched_gen'], only=(case['history'], case['schedule']))
     finally:
         world.stop()
+    for f in sub.failures:
+        print(f['signature'], '::', f['detail'][:300])
+    return any(f['signature'] == obj['signature'] for f in sub.failures)
